@@ -242,9 +242,13 @@ pub fn run(prop: &str, tier: &str, replay: Option<&str>) -> i32 {
     }
     if prop == "C04" {
         c04_extras(&mut rep, &judge, thorough);
+        super::c07::add_sections(&mut rep, prop, thorough, false);
+        super::c08::add_sections(&mut rep, prop, thorough, false);
     }
     if prop == "C05" {
         c05_extras(&mut rep, &judge, thorough);
+        super::c07::add_sections(&mut rep, prop, thorough, true);
+        super::c08::add_sections(&mut rep, prop, thorough, true);
     }
     run::finish(rep)
 }
@@ -333,9 +337,11 @@ fn c05_extras(rep: &mut Report, judge: &Judge, thorough: bool) {
     }
     let issuer = stub_issuer_ctx(Alg::EcP256, &DnSpec::cn("issuer"), &KeyIdSpec::Sha256, Alg::Ed25519, "pair");
     let sec = Section::new("sweep/auto-serial-classes", "subject keys realising every (first hash byte, high bit of second byte) class of the automatic serial; self- and issuer-signed");
-    let cases: Vec<(Vec<u8>, bool)> = keys.iter().flat_map(|k| [(k.clone(), false), (k.clone(), true)]).collect();
-    run::sweep_cases(&sec, &cases, &|c| format!("key={:02x?} issuer_signed={}", &c.0[..8], c.1), &|c| {
-        let st = CertState::default();
+    let kids: Vec<KeyIdSpec> = std::iter::once(KeyIdSpec::Sha256).chain(key_id_values().into_iter().filter(|(l, _)| !l.starts_with("nc:")).map(|(_, k)| k)).collect();
+    let cases: Vec<(Vec<u8>, bool, usize)> = keys.iter().flat_map(|k| (0..kids.len()).flat_map(move |m| [(k.clone(), false, m), (k.clone(), true, m)])).collect();
+    run::sweep_cases(&sec, &cases, &|c| format!("key={:02x?} issuer_signed={} key_id={:?}", &c.0[..8], c.1, kids[c.2]), &|c| {
+        let mut st = CertState::default();
+        st.key_id = kids[c.2].clone();
         if c.1 {
             let ctx = Ctx { label: "issuer".into(), issuer: None, subject: SubjectSrc::Custom(CustomPub { raw: c.0.clone(), alg: rc_alg(Alg::Ed25519).unwrap() }), subject_pub: KeyPub { alg: Alg::Ed25519, raw: c.0.clone() }, log: None };
             // borrow the shared issuer
